@@ -745,3 +745,8 @@ MANIFEST_ENTRY = dict(
          'crash prefix and cleans up on I/O errors; file tiles, legends and seed progress use it.',
     note='v1 bundles and SQLite are outside; fault model stated (no power-loss reordering; <= 8 byte writes atomic); one crash per store.',
 )
+
+# --- manifest text refreshed after rounds 6-8 (obligations added since the entry above was written)
+MANIFEST_ENTRY['text'] = 'For every crash point (and torn record write) of a compact v2 or v1 tile store from an arbitrary valid bundle (arbitrary header, incl. a stale size field) the reader sees old or complete new content for the written slot and -- by a frame argument over everything the store ever flushes or truncates -- unchanged content for every other slot; write_atomic binds the target only to complete content for every crash prefix and cleans up on I/O errors; file tiles, legends, seed progress and new bundle / bundle-index files use it.'
+MANIFEST_ENTRY['note'] = 'SQLite is outside (its own journal); fault model stated (no power-loss reordering; <= 8 byte writes atomic; truncate is treated as touching everything behind the new length); one crash per store.'
+META['assumptions'] = list(META.get('assumptions', [])) + ['truncate(n) is a metadata operation: recorded in the flush log (the frame argument treats every byte from n on as touched), ignored by crash images']
